@@ -562,7 +562,9 @@ class ExprBuilder(ast.NodeTransformer):
         a variable that the new operand assigns is evaluated into a temporary. For
         example, `g() + (h() if c() else k())` becomes `%tmp0 = g()`, then the branching
         on `c()`, then `%tmp0 + %tmp1`; likewise `xs[0] + (f(xs) if c else 0)` reads
-        `xs[0]` before `f` gets to mutate `xs`.
+        `xs[0]` before `f` gets to mutate `xs`. Operands left of a stored operand are
+        stored too if both may have an effect: `(f(), g(x), (x := y))` stores `f()`
+        before `g(x)`.
 
         `earlier` are operands that were built before. `last_is_stored` says that the
         caller is going to store the last operand in a temporary right after it is
@@ -575,14 +577,25 @@ class ExprBuilder(ast.NodeTransformer):
             if done and (stored or lifts_control_flow(child)):
                 effect = may_have_effect(child)
                 written = assigned_names(child)
-                for prev in done:
+                store: list[Operand] = []
+                # Storing an operand moves it in front of the residuals of the operands
+                # to its left, so those have to be stored as well if both may have an
+                # effect: go through the operands from right to left
+                overtakes = False
+                for prev in reversed(done):
                     residual = _get_operand(*prev)
                     if isinstance(residual, ast.Starred):
                         continue
-                    if (effect and may_have_effect(residual)) or any(
-                        x in written for x in read_names(residual)
+                    prev_effect = may_have_effect(residual)
+                    if (
+                        (effect and prev_effect)
+                        or (overtakes and prev_effect)
+                        or any(x in written for x in read_names(residual))
                     ):
-                        _set_operand(*prev, self.bind(residual))
+                        store.append(prev)
+                        overtakes = overtakes or prev_effect
+                for prev in reversed(store):
+                    _set_operand(*prev, self.bind(_get_operand(*prev)))
             _set_operand(container, key, self.visit(child))
             done.append((container, key))
 
